@@ -307,3 +307,36 @@ package account
 //@   requires s != nil && ch.account != nil && ch.prevbalance != nil
 //@   ensures [balance] old(registered(ref(s), *ch.account)) != 0 && !old(ptr(accountObject, registered(ref(s), *ch.account)).deleted) ==> balOf(*ch.account) == big(ch.prevbalance)
 //@   ensures [flag]    old(registered(ref(s), *ch.account)) != 0 && !old(ptr(accountObject, registered(ref(s), *ch.account)).deleted) ==> ptr(accountObject, old(registered(ref(s), *ch.account))).suicided == ch.prev
+
+// ---------------------------------------------------------------------------------------------
+// Flushing dirty storage (C01): the post-state root may not depend on the order in which Go ranges over the
+// dirty-slot map. updateTrie must therefore apply EVERY dirty slot to the storage trie, whatever order the map
+// is visited in - a partial flush makes the set of applied slots (and the root) depend on iteration order.
+// ghost flushed: the keys handed to the storage trie (update or delete) so far.
+//@ ghost flushed (Array Bytes Bool)
+
+//@ func Trie.TryUpdate
+//@   option interface
+//@   ensures ghost(flushed) == @store(old(ghost(flushed)), old(bytes(key)), true)
+//@   modifies ghost(flushed)
+
+//@ func Trie.TryDelete
+//@   option interface
+//@   ensures ghost(flushed) == @store(old(ghost(flushed)), old(bytes(key)), true)
+//@   modifies ghost(flushed)
+
+//@ func accountObject.getTrie
+//@   option trusted
+//@   requires ao != nil
+//@   ensures typeid(result) != 0
+//@   modifies ao.trie, ao.dbErr
+
+//@ func accountObject.updateTrie
+//@   property C01
+//@   requires ao != nil
+//@   loop 0: invariant forall k string :: visited(k) ==> !has(ao.dirtyStorage, k)
+//@   loop 0: invariant forall k string :: has(ao.dirtyStorage, k) ==> old(has(ao.dirtyStorage, k))
+//@   loop 0: invariant forall k string :: old(has(ao.dirtyStorage, k)) && !has(ao.dirtyStorage, k) ==> @select(ghost(flushed), bytes(k))
+//@   ensures [emptied] forall k string :: !has(ao.dirtyStorage, k)
+//@   ensures [applied] forall k string :: old(has(ao.dirtyStorage, k)) ==> @select(ghost(flushed), bytes(k))
+//@   modifies ao.trie, ao.dbErr, entries(ao.dirtyStorage), ghost(flushed)
